@@ -29,7 +29,7 @@ from vf.sym.terms import fresh, named_ext
 from vf.sym.xda import mk_da
 
 LEVEL = "other"
-EXPLANATION = ("contracts: part proved, part bounded. Proved on the real fit algorithm for tau_max in {1,2,3} (all extents): lagged covariance "
+EXPLANATION = ("contracts: part proved, part bounded. Proved on the real fit algorithm for every tau_max (loop rule on the lag loop; all extents): lagged covariance "
                "definition, trapezoidal lag weights, symmetrisation, whitened coordinates, uncorrelated equal-norm score series, "
                "bi-orthogonality of filter and persistent patterns. Bounded: the reported decorrelation times against the trapezoid sum "
                "of each series' own autocorrelation, their order, and optimality of the first mode (Rayleigh-Ritz is an axiom)")
@@ -106,8 +106,147 @@ def trace(tau_max):
         return explore(run, maxpaths=32)
 
 
+def _Ct_spec(Zn, t):
+    """lagged covariance of the normalised PCs at lag t (t: int or PNum): Z[:n-t]^T Z[t:] / (n-t-1)"""
+    from vf.sym.core import zl
+    from vf.sym.xda import lag_window
+    tz = zl(t)
+    if not isinstance(t, PNum) and t == 0:
+        return tm.smul(1 / tm.rv(n.z - 1), tm.mul(tm.H(Zn), Zn))
+    new = tm.ext_of(z3.simplify(n.z - tz))
+    W = lag_window(n, t, new)
+    lead = tm.mul(tm.H(tm.sel(n, new)), Zn)
+    lag = tm.mul(tm.Tr(W), Zn)
+    return tm.smul(1 / tm.rv(n.z - tz - 1), tm.mul(tm.H(lead), lag))
+
+
+class LagLoopVC:
+    """Hoare rule for `for tau in range(1, tau_max + 1)` of OPA._fit_algorithm with symbolic tau_max:
+    invariant  M = Msum(tau) := 1/2 C_0 + sum_{t < tau} w_t C_t,  w_t = 1/2 if t = tau_max else 1.
+    Msum is an uninterpreted k x k matrix per index; the rule checks entry (Msum(1) = 1/2 C_0) and that an arbitrary
+    iteration adds exactly w_tau C_tau to it; the induction itself is the loop rule."""
+    from vf.sym import looprule as _lr
+    EndPath = _lr.EndPath
+
+    def __init__(self, agg, tau_max):
+        self.agg, self.tau_max, self.fn, self.cfg = agg, tau_max, "OPA._fit_algorithm", "tau_max symbolic (loop rule)"
+
+    def _zn(self):
+        kpc = named_ext("kpc")
+        U, s = tm.sym("Upc", n, kpc, ("real",)), tm.sym("spc", kpc, kpc, ("diag", "real", "herm", "nonneg", "pos", "inv"))
+        sq = z3.Real(f"sqrt[{z3.simplify(n.z - 1)}]")
+        return tm.smul(1 / sq, tm.mul(U, s))
+
+    def loop_entry(self, ordinal, kind, seqs, loc):
+        M = loc["M"].transpose("feature1", "feature2").term
+        self.agg.vc(self.fn, "loop invariant holds on entry: M = 1/2 C_0", prove_eq(ctx(), M, tm.smul(0.5, _Ct_spec(self._zn(), 0))), self.cfg)
+        self.proto = loc["M"]
+
+    def choose(self, ordinal):
+        from vf.sym.core import decide
+        return decide(z3.Bool("arbitrary_iteration"))
+
+    def fresh_index(self, ordinal):
+        t = z3.Int("tau")
+        assume(t >= 1)
+        assume(t <= self.tau_max.z)
+        return PNum(t)
+
+    def havoc(self, ordinal, name):
+        if name == "M":
+            k = self.proto._ext["feature1"]
+            self.Msum = tm.sym("Msum[tau]", k, k, ("real",))
+            return self.proto._new(self.Msum) if list(self.proto.dims) == ["feature1", "feature2"] else self.proto.transpose("feature1", "feature2")._new(self.Msum)
+        return None
+
+    def bind(self, ordinal, kind, seqs, idx):
+        return idx
+
+    def assume_inv(self, ordinal, idx, loc):
+        pass
+
+    def check_inv(self, ordinal, idx, loc):
+        from vf.sym.core import decide
+        last = decide(idx.z == self.tau_max.z)
+        w = 0.5 if last else 1.0
+        M = loc["M"].transpose("feature1", "feature2").term
+        want = tm.add(self.Msum, tm.smul(w, _Ct_spec(self._zn(), idx)))
+        self.agg.vc(self.fn, "an arbitrary iteration adds w_tau C_tau to M (w = 1/2 exactly at tau = tau_max, 1 otherwise; C_tau = lagged covariance of the normalised PCs)",
+                    prove_eq(ctx(), M, want), self.cfg)
+
+    def loop_break(self, ordinal, loc):
+        self.agg.vc(self.fn, "the lag loop has no early exit", struct_vc(False, "break reached"), self.cfg)
+
+    def assume_exit(self, ordinal, seqs, loc):
+        pass
+
+
+def trace_symbolic(agg):
+    from vf.sym import looprule
+    names, xrf, npf = std_names(EOF=EOFStub, Decomposer=PSDDecomposer, get_deterministic_sign_multiplier=lib.sign_multiplier)
+    xrf.ufuncs = {npf.linalg.inv: lib.ufunc_inv, npf.linalg.norm: lib.ufunc_colnorm, npf.linalg.eigh: lib.ufunc_eigh}
+    tau_max = PNum(z3.Int("tau_max"))
+    vc = LagLoopVC(agg, tau_max)
+    with patched_globals([opamod, scmod], names):
+        f, text, info = looprule.compile_with_rule(opamod.OPA._fit_algorithm, 0, vc)
+
+        def run():
+            assume(tau_max.z >= 1)
+            assume(n.z >= 4 * tau_max.z + 4)
+            assume(p.z >= 2)
+            m = xeofs.single.OPA(n_modes=2, tau_max=3, n_pca_modes=3, sample_name=S, feature_name=F)
+            m._params["tau_max"] = tau_max
+            X = mk_da("X", (S, F), (n, p), owner="caller")
+            f(m, X)
+            return m, X, EOFStub.last, vc
+        return explore(run, maxpaths=48)
+
+
+def _post(agg, pth, cfg, Mterm, target_clause):
+    """obligations on one returning path; Mterm = the lag sum the loop is specified to have produced"""
+    fn = "OPA._fit_algorithm"
+    m, X, pca = pth.value[:3]
+    d = m.data
+    U, s = tm.sym("Upc", n, named_ext("kpc"), ("real",)), tm.sym("spc", named_ext("kpc"), named_ext("kpc"), ("diag", "real", "herm", "nonneg", "pos", "inv"))
+    sq = z3.Real(f"sqrt[{z3.simplify(n.z - 1)}]")
+    Zn = tm.smul(1 / sq, tm.mul(U, s))            # normalised PCs: scores / sqrt(n-1)
+    vc = lambda clause, l, r, f=fn: agg.vc(f, clause, prove_eq(pth.ctx, l, r), cfg)
+    C0 = m._C0.transpose("feature1", "feature2").term
+    vc("C0 = lag-0 covariance of the normalised principal components", C0, _Ct_spec(Zn, 0))
+    Msym = tm.add(Mterm(Zn), tm.Tr(Mterm(Zn)))
+    decs = [e for e in pth.ctx.events if e[0] == "call" and e[1].get("callee") == "Decomposer.fit"]
+    eig = pth.ctx.notes.get("eigh_args", [])
+    agg.vc(fn, "one SVD (of C0) and one symmetric eigen-decomposition (of the target)", struct_vc(len(decs) == 1 and len(eig) == 1, f"{len(decs)} {len(eig)}"), cfg)
+    if len(eig) == 1 and "A0" in pth.ctx.notes:
+        target = eig[0][1]
+        U0, s0 = pth.ctx.notes["A0"]
+        A = tm.mul(U0, tm.dpow(s0, 0.5))               # C0^(1/2) factor used by the code
+        want = tm.smul(0.5, tm.mul(tm.mul(tm.inv(A), Msym), tm.Tr(tm.inv(A))))
+        vc(target_clause, target, want)
+        vc("the matrix handed to the symmetric eigensolver is symmetric (precondition of eigh)", target, tm.Tr(target))
+    P = d["scores"].transpose(S, "mode").term
+    kk = d["scores"]._ext["mode"]
+    vc("score series are mutually uncorrelated with equal norm: P^T P = (n-1) I", tm.mul(tm.H(P), P), tm.smul(tm.rv(n.z - 1), tm.I(kk)))
+    Vf = d["filter_patterns"].transpose(F, "mode").term
+    Wp = d["components"].transpose(F, "mode").term
+    vc("filter patterns are bi-orthogonal to the optimally persistent patterns: V^T W = (n-1) I", tm.mul(tm.H(Vf), Wp), tm.smul(tm.rv(n.z - 1), tm.I(kk)))
+    vc("norms = Euclidean norms of the score series", tm.dpow(d["norms"].term, 2), tm.dg(tm.mul(tm.H(P), P)))
+    agg.vc(fn, "decorrelation times are eigenvalues of the target in descending order (leading n_modes)",
+           struct_vc("desc" in d["decorrelation_time"].tags and "asc" not in d["decorrelation_time"].tags, str(d["decorrelation_time"].tags)), cfg)
+    lam = d["decorrelation_time"].term
+    Uo = m._U.transpose(F, "mode").term
+    if len(eig) == 1:
+        vc("decorrelation time_i = u_i^T target u_i for the returned eigenvectors", tm.mul(tm.mul(tm.H(Uo), eig[0][0]), Uo), lam)
+    agg.vc(fn, "the inner PCA is fitted along the model's sample dimension with the user's names and n_pca_modes, centring (so covariances are covariances) and no further scaling", struct_vc(
+        pca.fit_dim == S and pca.kw.get("sample_name") == S and pca.kw.get("feature_name") == F and pca.kw.get("n_modes") == 3
+        and pca.kw.get("center", True) is True and pca.kw.get("standardize", False) is False and pca.kw.get("use_coslat", False) is False, str(pca.kw)), cfg)
+    agg.vc(fn, "dims", struct_vc(set(d["scores"].dims) == {S, "mode"} and set(d["components"].dims) == {F, "mode"}
+                                 and set(d["filter_patterns"].dims) == {F, "mode"}, f"{d['scores'].dims}"), cfg)
+
+
 def deductive(res, agg, tier="quick"):
     fn = "OPA._fit_algorithm"
+    TC = "target = 1/2 C0^(-1/2) (M + M^T) C0^(-1/2)^T with the trapezoidal lag sum M (half weights at lag 0 and tau_max)"
     for tau_max in ((1, 2, 3) if tier == "quick" else (1, 2, 3, 4, 5, 6, 8)):
         cfg = f"tau_max={tau_max}"
         try:
@@ -125,58 +264,44 @@ def deductive(res, agg, tier="quick"):
                 continue
             nret += 1
             with use_ctx(pth.ctx):
-                m, X, pca = pth.value
-                d = m.data
-                U, s = tm.sym("Upc", n, named_ext("kpc"), ("real",)), tm.sym("spc", named_ext("kpc"), named_ext("kpc"), ("diag", "real", "herm", "nonneg", "pos", "inv"))
-                k = named_ext("kpc")
-                sq = z3.Real(f"sqrt[{z3.simplify(n.z - 1)}]")
-                Zn = tm.smul(1 / sq, tm.mul(U, s))            # normalised PCs: scores / sqrt(n-1)
-                vc = lambda clause, l, r, f=fn: agg.vc(f, clause, prove_eq(pth.ctx, l, r), cfg)
-                C0 = m._C0.transpose("feature1", "feature2").term
-                vc("C0 = lag-0 covariance of the normalised principal components", C0, tm.smul(1 / tm.rv(n.z - 1), tm.mul(tm.H(Zn), Zn)))
-                # independent lag sum: 1/2 C0 + sum_{0<t<tau_max} C_t + 1/2 C_tau_max, C_t = Z[:n-t]^T Z[t:] / (n-t-1)
-                def Ct(t):
-                    if t == 0:
-                        return tm.smul(1 / tm.rv(n.z - 1), tm.mul(tm.H(Zn), Zn))
-                    new = tm.ext_of(n.z - t)
-                    W = tm.sym(f"Win[{t}:{n.name}|{n.name}]", n, new, ("real",))
-                    lead = tm.mul(tm.H(tm.sel(n, new)), Zn)
-                    lag = tm.mul(tm.Tr(W), Zn)
-                    return tm.smul(1 / tm.rv(n.z - t - 1), tm.mul(tm.H(lead), lag))
-                M = tm.smul(0.5, Ct(0))
-                for t in range(1, tau_max + 1):
-                    M = tm.add(M, tm.smul(0.5 if t == tau_max else 1.0, Ct(t)))
-                Msym = tm.add(M, tm.Tr(M))
-                decs = [e for e in pth.ctx.events if e[0] == "call" and e[1].get("callee") == "Decomposer.fit"]
-                eig = pth.ctx.notes.get("eigh_args", [])
-                agg.vc(fn, "one SVD (of C0) and one symmetric eigen-decomposition (of the target)", struct_vc(len(decs) == 1 and len(eig) == 1, f"{len(decs)} {len(eig)}"), cfg)
-                if len(eig) == 1 and "A0" in pth.ctx.notes:
-                    target = eig[0][1]
-                    U0, s0 = pth.ctx.notes["A0"]
-                    A = tm.mul(U0, tm.dpow(s0, 0.5))               # C0^(1/2) factor used by the code
-                    want = tm.smul(0.5, tm.mul(tm.mul(tm.inv(A), Msym), tm.Tr(tm.inv(A))))
-                    vc("target = 1/2 C0^(-1/2) (M + M^T) C0^(-1/2)^T with the trapezoidal lag sum M (half weights at lag 0 and tau_max)", target, want)
-                    vc("the matrix handed to the symmetric eigensolver is symmetric (precondition of eigh)", target, tm.Tr(target))
-                P = d["scores"].transpose(S, "mode").term
-                kk = d["scores"]._ext["mode"]
-                vc("score series are mutually uncorrelated with equal norm: P^T P = (n-1) I", tm.mul(tm.H(P), P), tm.smul(tm.rv(n.z - 1), tm.I(kk)))
-                Vf = d["filter_patterns"].transpose(F, "mode").term
-                Wp = d["components"].transpose(F, "mode").term
-                vc("filter patterns are bi-orthogonal to the optimally persistent patterns: V^T W = (n-1) I", tm.mul(tm.H(Vf), Wp), tm.smul(tm.rv(n.z - 1), tm.I(kk)))
-                vc("norms = Euclidean norms of the score series", tm.dpow(d["norms"].term, 2), tm.dg(tm.mul(tm.H(P), P)))
-                agg.vc(fn, "decorrelation times are eigenvalues of the target in descending order (leading n_modes)",
-                       struct_vc("desc" in d["decorrelation_time"].tags and "asc" not in d["decorrelation_time"].tags, str(d["decorrelation_time"].tags)), cfg)
-                lam = d["decorrelation_time"].term
-                Uo = m._U.transpose(F, "mode").term
-                if len(eig) == 1:
-                    vc("decorrelation time_i = u_i^T target u_i for the returned eigenvectors", tm.mul(tm.mul(tm.H(Uo), eig[0][0]), Uo), lam)
-                agg.vc(fn, "the inner PCA is fitted along the model's sample dimension with the user's names and n_pca_modes, centring (so covariances are covariances) and no further scaling", struct_vc(
-                    pca.fit_dim == S and pca.kw.get("sample_name") == S and pca.kw.get("feature_name") == F and pca.kw.get("n_modes") == 3
-                    and pca.kw.get("center", True) is True and pca.kw.get("standardize", False) is False and pca.kw.get("use_coslat", False) is False, str(pca.kw)), cfg)
-                agg.vc(fn, "dims", struct_vc(set(d["scores"].dims) == {S, "mode"} and set(d["components"].dims) == {F, "mode"}
-                                             and set(d["filter_patterns"].dims) == {F, "mode"}, f"{d['scores'].dims}"), cfg)
+                def Mterm(Zn, tau_max=tau_max):
+                    # independent lag sum: 1/2 C0 + sum_{0<t<tau_max} C_t + 1/2 C_tau_max
+                    M = tm.smul(0.5, _Ct_spec(Zn, 0))
+                    for t in range(1, tau_max + 1):
+                        M = tm.add(M, tm.smul(0.5 if t == tau_max else 1.0, _Ct_spec(Zn, t)))
+                    return M
+                _post(agg, pth, cfg, Mterm, TC)
         if nret == 0:
             agg.vc(fn, "has-returning-path", struct_vc(False, "vacuity guard"), cfg)
+    # ---- every tau_max >= 1: the lag loop under the Hoare rule (invariant M = Msum(tau)), then the same post-conditions with M = Msum(tau_max + 1)
+    cfg = "tau_max symbolic (loop rule)"
+    try:
+        paths = trace_symbolic(agg)
+    except PathLimit as e:
+        res.undecided_reasons.append(f"{fn}[{cfg}]: {e}")
+        paths = []
+    except Exception as e:  # noqa: BLE001
+        agg.vc(fn, "loop rule applicable", {"status": "undecided", "residue": f"{type(e).__name__}: {e}"}, cfg)
+        paths = []
+    res.paths += len(paths)
+    from vf.sym import looprule
+    nret = nend = 0
+    for pth in paths:
+        if pth.kind == "raise" and isinstance(pth.exc, looprule.EndPath):
+            nend += 1
+            continue
+        if pth.kind == "unsupported":
+            agg.vc(fn, "within-supported-subset", {"status": "undecided", "residue": f"{pth.exc} {pth.tb[-3:]}"}, cfg)
+            continue
+        if pth.kind != "return":
+            agg.vc(fn, "does not raise", struct_vc(False, f"{pth.exc!r} {pth.tb[-2:]}"), cfg)
+            continue
+        nret += 1
+        with use_ctx(pth.ctx):
+            vcobj = pth.value[3]
+            _post(agg, pth, cfg, lambda Zn: vcobj.Msum, "target = 1/2 C0^(-1/2) (M + M^T) C0^(-1/2)^T for the lag sum M = Msum(tau_max + 1) established by the loop invariant")
+    if paths:
+        agg.vc(fn, "the loop rule explored an arbitrary iteration (both weights) and the loop exit", struct_vc(nend >= 2 and nret >= 1, f"{nend} iteration paths, {nret} exit paths"), cfg)
 
 
 # ---------------------------------------------------------------- bounded
@@ -268,7 +393,7 @@ def run(tier, seed):
     res.functions = ["xeofs.single.opa:OPA.__init__", "OPA._fit_algorithm", "OPA._Ctau", "OPA._compute_matrix_inverse"]
     res.assumptions = ["inner EOF under its contract (C01) with retained singular values > 0; Decomposer under SVD_k; for the Gram matrix C0 the PSD lemma (U = V, C0 = U s U^H) is assumed",
                        "xarray: shift(-t).dropna keeps the rows t.. under the labels of the leading rows and xr.dot aligns on common labels (modelled exactly for prefixes)",
-                       "the loop over lags is executed for the concrete tau_max in {1,2,3}; other tau_max and the values of the decorrelation times (SVD vs eigen-decomposition of a possibly indefinite target): bounded",
+                       "the loop over lags is proved for every tau_max >= 1 by the Hoare rule (invariant M = 1/2 C_0 + sum_{t<tau} w_t C_t, mechanical rewrite of loop 0, vf/sym/looprule.py) and additionally executed for the concrete tau_max in {1,2,3}; termination is not proved; the values of the decorrelation times against each series' own autocorrelation: bounded",
                        "Rayleigh-Ritz (optimality of the leading eigenvector) is an axiom; bounded runs probe it with random combinations"]
     res.trusted = ["CPython on proxies", "vf/sym normaliser", "z3 (NRA for sqrt(n-1))"]
     agg = Agg(res, "C19")
